@@ -12,6 +12,11 @@
 // engine.QueryRunner (the API server serves all parallel requests through a single runner); every
 // result must equal the query's own reference run.
 //
+// Part B' (termination with keepalives): a child process repeats a query over several hundred days with a
+// tiny keepalive interval and an enabled log level on all CPUs; it must finish. If it does not, the
+// verdict is state based: violation only if the runtime's goroutine dump shows every goroutine with a
+// goProbe frame parked in a lock / channel wait for at least a minute (one of them on a mutex).
+//
 // Part B (termination): databases with N tiny one-block days (N up to several thousand) are queried
 // by a separate, un-hooked process pinned to one CPU (`taskset -c 0 <self> -role c11-query ...`, so
 // runtime.NumCPU()==1 and the engine uses a single worker). The child must finish within a generous
@@ -86,14 +91,27 @@ func init() {
 			"a watchdog expiry without the producer-blocked/no-consumer witness is reported as inconclusive, never as a violation",
 			"block timestamps >= 1000080000 (10-digit day directories)",
 		},
-		NumCases: func(tier, variant string) int { return nEquiv(tier, variant) + len(dayCounts(tier, variant)) },
+		NumCases: func(tier, variant string) int {
+			return nEquiv(tier, variant) + len(dayCounts(tier, variant)) + keepaliveCases(tier, variant)
+		},
 		Variants: func(tier string) []string { return []string{"default", "race"} },
 		Run:      run,
 		Require: []string{"shared_runner_concurrent_queries", "config_runs", "config_runs_nontrivial", "runs_lowmem", "runs_workers_16", "runs_gomaxprocs_1", "queries_multi_workload",
-			"termination_children", "termination_days_over_channel_capacity"},
+			"termination_children", "termination_days_over_channel_capacity", "keepalive_queries_finished"},
 		CaseTimeout: 400 * time.Second,
 	})
 	fw.RegisterRole("c11-query", roleQuery)
+}
+
+// keepaliveCases is the number of keepalive-termination cases (default variant only).
+func keepaliveCases(tier, variant string) int {
+	if variant != "default" {
+		return 0
+	}
+	if tier == "thorough" {
+		return 6
+	}
+	return 2
 }
 
 func run(c *fw.Case) {
@@ -102,7 +120,12 @@ func run(c *fw.Case) {
 		runEquiv(c)
 		return
 	}
-	runTermination(c, dayCounts(c.Tier, c.Variant)[c.Idx-ne])
+	nd := len(dayCounts(c.Tier, c.Variant))
+	if c.Idx < ne+nd {
+		runTermination(c, dayCounts(c.Tier, c.Variant)[c.Idx-ne])
+		return
+	}
+	runKeepalive(c)
 }
 
 // ---------------------------------------------------------------------------------------------
@@ -379,6 +402,23 @@ func roleQuery(args []string) int {
 	out := childOut{NumCPU: runtime.NumCPU()}
 	spec := termSpec(first, last)
 	a := eng.Args("sip,dip", "eth0", "", first, last)
+	if ka := os.Getenv("C11_KEEPALIVE"); ka != "" {
+		// keepalive variant: the same query repeatedly with keepalive callbacks enabled (log level as
+		// set through VERIF_DEBUG_LOG by the parent, so that the callbacks really format their output)
+		d, _ := time.ParseDuration(ka)
+		n, _ := strconv.Atoi(os.Getenv("C11_REPEAT"))
+		for i := 0; i < n; i++ {
+			a := eng.Args("sip,dip", "eth0", "", first, last)
+			a.KeepAlive = d
+			a.LowMem = i%2 == 1
+			if _, err, pmsg := eng.Run(args[0], a); err != nil || pmsg != "" {
+				out.Err = fmt.Sprintf("keepalive query %d: %v %s", i, err, firstLines(pmsg, 6))
+				break
+			}
+			fmt.Fprintf(os.Stderr, "keepalive query %d done\n", i)
+		}
+		a.KeepAlive = d
+	}
 	res, err, pmsg := eng.Run(args[0], a)
 	switch {
 	case pmsg != "":
@@ -396,7 +436,164 @@ func roleQuery(args []string) int {
 
 var (
 	consumerRe = regexp.MustCompile(`grabAndProcessWorkload`)
+	minutesRe  = regexp.MustCompile(`^goroutine \d+ \[([^\],]+), (\d+) minutes`)
 )
+
+// blockedForMinutes is the deadlock witness of the keepalive cases: in the runtime's goroutine dump
+// EVERY goroutine that has a goProbe frame has been parked in a lock / channel / wait-group wait for at
+// least a minute (the runtime annotates such goroutines with "N minutes"; a goroutine that is merely
+// starved is "runnable" or "running" and carries no such annotation), and at least one of them waits
+// for a sync.Mutex / sync.RWMutex. A query over such a database needs well under a second of CPU.
+func blockedForMinutes(dump string) (witness bool, summary string) {
+	var lines []string
+	nGoProbe, lockWait := 0, false
+	for _, g := range strings.Split(dump, "\n\n") {
+		g = strings.TrimSpace(g)
+		if !strings.HasPrefix(g, "goroutine ") || !strings.Contains(g, "github.com/els0r/goProbe") {
+			continue
+		}
+		head, _, _ := strings.Cut(g, "\n")
+		nGoProbe++
+		m := minutesRe.FindStringSubmatch(head)
+		if m == nil {
+			return false, "goroutine not blocked for minutes: " + head
+		}
+		switch {
+		case strings.HasPrefix(m[1], "sync.RWMutex"), strings.HasPrefix(m[1], "sync.Mutex"):
+			lockWait = true
+		case m[1] == "semacquire", m[1] == "chan receive", m[1] == "chan send", m[1] == "select", strings.HasPrefix(m[1], "sync."):
+		default:
+			return false, "goroutine in a state that is not a lock / channel wait: " + head
+		}
+		top := ""
+		for _, l := range strings.Split(g, "\n") {
+			if strings.HasPrefix(l, "github.com/els0r/goProbe") {
+				top = strings.TrimSpace(l)
+				break
+			}
+		}
+		lines = append(lines, head+" "+top)
+	}
+	return nGoProbe >= 2 && lockWait, strings.Join(lines, "\n")
+}
+
+// runKeepalive: termination with keepalives enabled. A database of several hundred one-block days
+// (>= 10 workloads) is queried repeatedly by a child process with a tiny keepalive interval and an
+// enabled log level, multi-threaded (no CPU pinning), so that keepalive callbacks, workers and the
+// aggregator interleave. The child must finish; the verdict on a child that does not is state based.
+func runKeepalive(c *fw.Case) {
+	days := 320 + 32*c.Rng.Intn(12)
+	db := &gen.RefDB{Ifaces: []gen.IfaceData{{Name: "eth0"}}}
+	base := gen.DayStart(gen.MinTS) + 86400*int64(10+c.Rng.Intn(1000))
+	for d := 0; d < days; d++ {
+		f := gen.Flow{SIP: gen.V4Addrs[d%len(gen.V4Addrs)], DIP: gen.V4Addrs[(d/7)%len(gen.V4Addrs)], Dport: 443, Proto: 6,
+			BR: uint64(100 + d), BS: uint64(3 * d), PR: uint64(1 + d%5), PS: uint64(d % 3)}
+		db.Ifaces[0].Blocks = append(db.Ifaces[0].Blocks, gen.Block{TS: base + int64(d)*86400 + 300*int64(1+d%280), Flows: []gen.Flow{f}})
+	}
+	dbPath := c.Tmp + "/db"
+	for i, b := range db.Ifaces[0].Blocks {
+		if err := gen.WriteBlock(dbPath, "eth0", b, encoders.EncoderTypeLZ4, 0); err != nil {
+			c.Violatef("write_error", "writing day %d failed: %v", i, err)
+			return
+		}
+	}
+	first, last := db.Ifaces[0].Blocks[0].TS-1000, db.Ifaces[0].Blocks[days-1].TS+1000
+	want := ref.Query(db, termSpec(first, last))
+	oracle := rdr.Canon{Rows: rdr.RowStrings(want), Totals: want.Totals(), Hits: len(want)}
+	self, err := os.Executable()
+	if err != nil {
+		c.Inconclusive("os.Executable: %v", err)
+		return
+	}
+	ka := []string{"1us", "20us", "1ms"}[c.Rng.Intn(3)]
+	repeat := 25
+	cmd := exec.Command(self, "-role", "c11-query", dbPath, strconv.FormatInt(first, 10), strconv.FormatInt(last, 10))
+	cmd.Env = append(os.Environ(), "GOTRACEBACK=all", "VERIF_DEBUG_LOG=1", "C11_KEEPALIVE="+ka, "C11_REPEAT="+strconv.Itoa(repeat))
+	var stdout bytes.Buffer
+	errPath := c.Tmp + "/child.stderr"
+	ef, _ := os.Create(errPath)
+	cmd.Stdout, cmd.Stderr = &stdout, ef
+	if err := cmd.Start(); err != nil {
+		ef.Close()
+		c.Inconclusive("cannot start child: %v", err)
+		return
+	}
+	defer ef.Close()
+	desc := fmt.Sprintf("%d one-block day directories (%d workloads), %d+1 queries sip,dip over the whole range with keepalive %s and an enabled log level", days, (days+31)/32, repeat, ka)
+	done := make(chan error, 1)
+	go func() { done <- cmd.Wait() }()
+	var werr error
+	finished := false
+	// the runtime only says "N minutes" once a goroutine has been parked for a full minute: probe the
+	// child after 100, 200 and 400 s (generous: a correct run takes seconds)
+	for i := 0; i < 400 && !finished; i++ {
+		select {
+		case werr = <-done:
+			finished = true
+		case <-time.After(time.Second):
+		}
+		if finished || (i+1 != 100 && i+1 != 200 && i+1 != 400) {
+			continue
+		}
+		progress, _ := os.ReadFile(errPath)
+		c.Note("keepalive child still running after %d s (%d queries done)", i+1, strings.Count(string(progress), "keepalive query"))
+		if i+1 < 400 {
+			// a cheap look first: a non-fatal dump
+			cmd.Process.Signal(syscall.SIGUSR1)
+			time.Sleep(3 * time.Second)
+			all, _ := os.ReadFile(errPath)
+			if j := strings.LastIndex(string(all), "=== VERIF GOROUTINE DUMP"); j < 0 {
+				continue
+			} else if ok, _ := blockedForMinutes(string(all)[j:]); !ok {
+				continue
+			}
+		}
+		cmd.Process.Signal(syscall.SIGQUIT)
+		select {
+		case <-done:
+		case <-time.After(15 * time.Second):
+			cmd.Process.Kill()
+			<-done
+		}
+		all, _ := os.ReadFile(errPath)
+		dump := string(all)
+		if j := strings.Index(dump, "SIGQUIT: quit"); j >= 0 {
+			dump = dump[j:]
+		}
+		nDone := strings.Count(string(all), "keepalive query")
+		if ok, sum := blockedForMinutes(dump); ok {
+			c.Violatef("no_termination|all_query_goroutines_blocked_for_minutes", "%s: no result after %d s (%d queries had finished); in the goroutine dump every goroutine with a goProbe frame has been parked in a lock / channel wait for at least a minute and at least one waits for a mutex:\n%s", desc, i+1, nDone, sum)
+		} else {
+			c.Inconclusive("%s: child still running after %d s (%d queries done) without the all-blocked witness (%s)", desc, i+1, nDone, firstLines(sum, 3))
+		}
+		return
+	}
+	if !finished {
+		cmd.Process.Kill()
+		<-done
+		c.Inconclusive("%s: child did not finish", desc)
+		return
+	}
+	var out childOut
+	if werr != nil || json.Unmarshal(bytes.TrimSpace(stdout.Bytes()), &out) != nil {
+		b, _ := os.ReadFile(errPath)
+		kind := "child_died"
+		if bytes.Contains(b, []byte("panic:")) || bytes.Contains(b, []byte("fatal error:")) {
+			kind = "child_crashed"
+		}
+		c.Violatef(kind+"|keepalive", "%s: child failed (%v): stdout %q stderr tail: %s", desc, werr, lastBytes(stdout.String(), 300), lastBytes(string(b), 3000))
+		return
+	}
+	if out.Err != "" || out.Panic != "" {
+		c.Violatef("query_error|keepalive", "%s: %s %s", desc, out.Err, firstLines(out.Panic, 8))
+		return
+	}
+	c.Count("keepalive_queries_finished", repeat+1)
+	c.Nontrivial(fmt.Sprintf("keepalive/%d/%s", days, ka))
+	if d := rdr.DiffCanon(oracle, rdr.Canon{Rows: out.Rows, Totals: out.Totals, Hits: out.Hits}); d != "" {
+		c.Violatef("keepalive_result_vs_oracle", "%s: %s", desc, d)
+	}
+}
 
 // witnessIn reports whether a goroutine dump shows the producer blocked in a channel send inside
 // CreateWorkerJobs and no worker goroutine.
